@@ -63,7 +63,7 @@ CHECKS["C19"] = dict(
     technique="Coq proof (mutual induction) over hand-written Gallina model + exact vm_compute correspondence",
     design="4/C19")
 CHECKS["C05"] = dict(
-    text=("Theorems (Coq Reals + Coquelicot, 31 obligations) about R-valued Gallina definitions regenerated each run by translate/pyscalar.py from "
+    text=("Theorems (Coq Reals + Coquelicot, 34 obligations) about R-valued Gallina definitions regenerated each run by translate/pyscalar.py from "
           "the six kernels' k bodies, util.distance, the Add/Mul/Pow node arithmetic: each profile equals its documented closed form; the distance "
           "entry is sqrt(|x-y|^2+1e-12), symmetric, >= 1e-6; profile(0)=1, decreasing, values in (0,1]; keval symmetric, pointwise sum/product/"
           "power, inactive dimensions irrelevant, time covariance is the state x time product (structural induction over kexpr, any depth); PSD "
@@ -74,9 +74,11 @@ CHECKS["C05"] = dict(
     note=("Trusted: Coq kernel + standard real-number axioms (classic, sig_forall_dec, sig_not_dec, functional_extensionality_dep) and, for the "
           "choice structure of R in lib/Rstruct.v, Epsilon.epsilon_statement (all declared by the standard library); pyscalar "
           "translator; the kexpr/keval recursion scheme is hand-written over generated node arithmetic (pattern-checked + correspondence). "
-          "PARTIAL: positive semi-definiteness of the base profiles (Bochner's theorem for the five stationary kernels, Gram form of the linear "
-          "kernel) is the one remaining hypothesis of C05_keval_psd_bochner_only_partial, tested numerically as support only; Pow nodes are "
-          "outside psd_shape; RatQuad docstring exponent typo noted."),
+          "Gram matrices of the Linear and ExpQuad kernels are PROVED positive semi-definite (exponential series + Schur product; "
+          "C05_expquad_gram_psd, C05_linear_gram_psd) and so is every expression tree over them (C05_keval_psd_gaussian_linear). "
+          "PARTIAL: for Matern32, Matern52, Exponential and RatQuad positive semi-definiteness (Bochner / Schoenberg scale mixtures) remains the "
+          "hypothesis of C05_keval_psd_bochner_only_partial, tested numerically as support only; Pow nodes are outside psd_shape; RatQuad "
+          "docstring exponent typo noted."),
     technique="Coq real-analysis proof over translator-generated definitions + Interval-tactic enclosure at every sampled input",
     design="4/C05")
 CHECKS["C11"] = dict(
